@@ -93,6 +93,9 @@ structure Contract where
   twoStage : Bool
   idx : Nat
   expiry : Nat
+  /-- pre-anchor channel, htlc on our commitment: the second-level output is handed to the utxo
+      nursery (`IncubateOutputs`) instead of the sweeper -/
+  legacy : Bool := false
   deriving DecidableEq, Repr, Inhabited
 
 def Contract.fresh (c : Contract) : Rec := { kind := c.kind, incub := false, resolved := false }
@@ -219,6 +222,8 @@ structure RunRes where
   key : Nat
   rc : Rec
   pc : RPc
+  /-- this incarnation has already handed the output to the nursery (volatile) -/
+  handed : Bool := false
   deriving DecidableEq, Repr, Inhabited
 
 structure Sys where
@@ -244,6 +249,8 @@ structure Sys where
   resolvedKeys : List Nat := []
   /-- ghost: number of stops so far -/
   crashes : Nat := 0
+  /-- durable: htlc outputs persisted in the utxo nursery store by `IncubateOutputs` -/
+  nursery : List Nat := []
   facts : Facts := {}
   deriving Repr, Inhabited
 
@@ -412,6 +419,8 @@ inductive ResRes
   | blocked
   /-- the resolver's goroutine ends without resolving (error from `Resolve`, or a panic) -/
   | die
+  /-- `IncubateOutputs`: a durable (idempotent) write into the nursery store -/
+  | incubate
   | put (msgs : List (Nat × Bool)) (r : Rec) (pc : RPc)
   | del
   /-- `ResolveContract` of the key-less anchor resolver: an empty write -/
@@ -456,6 +465,13 @@ def resRes (sp : Spec) (f : Facts) (r : RunRes) : ResRes :=
         else .blocked
       | .su =>
         if r.rc.resolved then .blocked
+        else if c.legacy then
+          -- resolveLegacySuccessTx: publish the success tx, IncubateOutputs, THEN checkpoint
+          -- `outputIncubating`, then wait for the nursery's sweep of the second-level output
+          if !r.rc.incub then
+            (if !r.handed then .incubate else .put [] { r.rc with incub := true } .running)
+          else if f.spent2.contains r.key then .put [] { r.rc with resolved := true } .needDelete
+          else .blocked
         else match f.spendOf r.key with
         | none => .blocked
         | some .remote => .put [] { r.rc with resolved := true } .needDelete   -- checkpointForeignSpend
@@ -489,6 +505,9 @@ def setActive (as : List RunRes) (k : Nat) (r : RunRes) : List RunRes :=
 def resApply (s : Sys) (k : Nat) (r : RunRes) : ResRes → Option Sys
   | .blocked => none
   | .die => some { s with active := setActive s.active k { r with pc := .dead } }
+  | .incubate =>
+    some { s with nursery := if s.nursery.contains k then s.nursery else k :: s.nursery,
+                  active := setActive s.active k { r with handed := true } }
   | .put ms rec pc =>
     some { s with msgs := s.msgs ++ ms,
                   log := if rec.kind.persisted
